@@ -74,7 +74,9 @@ def secrets(seed, k):
 def one_run(args):
     exe, marks, d, api, var, idx, sec = args
     secfile = "%s/secret.bin" % d      # fixed name (argv must be identical across runs); per-process dir
-    work = "%s/w_%s_%d_%d" % (d, api, var, idx); os.makedirs(work, exist_ok=True)
+    # the working directory's NAME LENGTH reaches the client's initial stack layout under valgrind (measured: idx 9 -> 10 shifted
+    # every stack address of some APIs), so all runs use names of one fixed length
+    work = "%s/w_%s" % (d, hashlib.sha256(("%s/%d/%d" % (api, var, idx)).encode()).hexdigest()[:16]); os.makedirs(work, exist_ok=True)
     open(work + "/secret.bin", "wb").write(sec)
     p = subprocess.run(["valgrind", "--tool=lackey", "--trace-mem=yes", "--log-file=lk.log", exe, api, str(var), "secret.bin", "side.json"],
                        cwd=work, stdout=subprocess.PIPE, stderr=subprocess.STDOUT, timeout=900)
